@@ -55,9 +55,34 @@ func verifyTxs(block *types.Block, txGuard TxGuard, chainId uint16) error {
 		log.Error("Consensus verify fail: tx is appeared in parent blocks")
 		return ErrVerifyBlockFailed
 	}
+	// a transaction has no nonce. So it must not appear twice in a block either, neither by itself nor in a box
+	appeared := make(map[common.Hash]struct{}, len(block.Txs))
+	isAppeared := func(hash common.Hash) bool {
+		if _, ok := appeared[hash]; ok {
+			return true
+		}
+		appeared[hash] = struct{}{}
+		return false
+	}
 	for _, tx := range block.Txs {
 		if err := tx.VerifyTxBody(chainId, uint64(block.Time()), true); err != nil {
 			return ErrVerifyBlockFailed
+		}
+		if isAppeared(tx.Hash()) {
+			log.Error("Consensus verify fail: tx is appeared twice in block", "hash", tx.Hash().Hex())
+			return ErrVerifyBlockFailed
+		}
+		if tx.Type() == params.BoxTx {
+			box, err := types.GetBox(tx.Data())
+			if err != nil {
+				return ErrVerifyBlockFailed
+			}
+			for _, subTx := range box.SubTxList {
+				if isAppeared(subTx.Hash()) {
+					log.Error("Consensus verify fail: tx is appeared twice in block", "hash", subTx.Hash().Hex())
+					return ErrVerifyBlockFailed
+				}
+			}
 		}
 	}
 	return nil
